@@ -319,7 +319,7 @@ inductive Choice where
 /-- One way a request can go: what each statement does, and the limiter's answer. -/
 structure Scenario where
   choice : Nat → Choice
-  admit : Bool
+  granted : Bool
 
 inductive Event where
   | tryAcquire (ok : Bool)
@@ -342,7 +342,7 @@ def execStmts (sc : Scenario) : List Stmt → Nat → List Bool → List Event
     | .acquireGuard =>
       match sc.choice i with
       | .panic => unwind ds
-      | _ => if sc.admit then .tryAcquire true :: execStmts sc rest (i + 1) ds
+      | _ => if sc.granted then .tryAcquire true :: execStmts sc rest (i + 1) ds
              else .tryAcquire false :: unwind ds
     | .deferRelease => execStmts sc rest (i + 1) (true :: ds)
     | .deferOther => execStmts sc rest (i + 1) (false :: ds)
@@ -363,11 +363,8 @@ def shapeOk : List Stmt → Bool
 def countAcq (tr : List Event) : Nat := tr.count (.tryAcquire true)
 def countRel (tr : List Event) : Nat := tr.count .release
 
-/-- the statements the model was written against (`pkg/gateway/proxy/dispatcher/dispatcher.go`) -/
-def expectedServeHTTP : List String :=
-  ["other", "other", "other", "guard", "other", "guard", "other", "guard", "other", "guard", "other", "guard",
-   "other", "guard", "other", "other", "acquireGuard", "deferRelease", "other", "guard", "other", "guard", "guard",
-   "other", "other", "other", "other", "other", "other", "other", "other", "other", "other", "other", "deferOther",
-   "other", "other", "other"]
+/-- `upstreamLimiter.Load` hands out the limiter in force (`Current()`), never the wrapper, at both places
+    where it returns the local limiter. -/
+def loadLocalReturns : List String := ["fcw.LocalFlowControl().Current()", "fcw.LocalFlowControl().Current()"]
 
 end KG.Model.LocalLimiter
